@@ -135,6 +135,14 @@ class C08(Harness):
         out["splits"] = [[L(a), L(b)] for a, b in cv.split(y)]
         out["fitlog"] = [e for e in log if e["op"] in ("fit", "update")]
         del log[:]
+        if kind == "plain" and cell["refit"] and not cell.get("nan_candidate") and not cell.get("gapped") and cell.get("strategy", "refit") == "refit":
+            # a second search over the SAME base forecaster object, tuning another parameter: its candidates are the
+            # base forecaster as the caller configured it (p = 0) plus their own setting
+            gs2 = tune.ForecastingGridSearchCV(base, cv, {"q": [5, 6]}, scoring=sc, refit=False)
+            gs2.fit(y, fh=fh)
+            res2 = gs2.cv_results_
+            out["second"] = {"means": [S(res2["mean_test_stub"].iloc[i]) for i in range(len(res2))], "fitlog": [e for e in log if e["op"] in ("fit", "update")], "base_p": S(base.p), "base_q": S(base.q)}
+            del log[:]
         nb = len(inp["u"])
         yb = pd.Series(inp["u"], index=pd.RangeIndex(s0 + n, s0 + n + nb)) if nb else None
         if cell["refit"]:
@@ -228,6 +236,22 @@ class C08(Harness):
                 continue
             means.append(tot / nfold)
             P.eq("row-equals-independent-evaluate", out["means"][j], means[j])
+        if "second" in out:
+            sec = out["second"]
+            d2 = {"what": "second search over the same base forecaster object"}
+            P.eq("row-equals-independent-evaluate", sec["base_p"], 0, dict(d2, param="p of the caller's forecaster"))
+            P.eq("row-equals-independent-evaluate", sec["base_q"], 0, dict(d2, param="q of the caller's forecaster"))
+            P.check("same-splits-for-every-candidate", len(sec["fitlog"]) == 2 * nfold and len(sec["means"]) == 2, d2)
+            if len(sec["fitlog"]) == 2 * nfold and len(sec["means"]) == 2:
+                for j, qv in enumerate((5, 6)):
+                    tot = 0
+                    for f_i, (tr, te) in enumerate(splits):
+                        e = sec["fitlog"][j * nfold + f_i]
+                        P.check("row-equals-independent-evaluate", e["who"] == 0 and e["q"] == qv, dict(d2, candidate=j, p_seen=e["who"], q_seen=e["q"]))
+                        c = s0 + tr[-1]
+                        a = [y[q_] for q_ in te] + [F(0, c, s0 + q_) for q_ in te]
+                        tot = tot + W.uf("score_%d" % len(a), a, "r" * len(a) + ">r")
+                    P.eq("row-equals-independent-evaluate", sec["means"][j], tot / nfold, dict(d2, candidate=j))
         bi = out["best_index"]
         P.check("best-params-score-belong-to-best-index", isinstance(bi, int) and 0 <= bi < len(cands))
         if not (isinstance(bi, int) and 0 <= bi < len(cands)):
